@@ -16,6 +16,7 @@ from sa.pyindex import get_module, dotted, src, calls_in, fold, try_fold, \
 from sa import flow
 
 from rules import _opcodes as O
+from rules import _util_c16c19 as U
 from refs import opcode_refs as REF
 
 EXPLANATION = (
@@ -87,7 +88,9 @@ EXPLANATION = (
     "`is not None`, or dropping 'tuple' from the routed tags, is a violation "
     "(`[(), (1,), (1, 2)]` -> KeyError).  R15.23 "
     "(rules/c15_directive_order.py): _LineSet.start_range raises an uncaught "
-    "ValueError for a decreasing line; Director._parse_src_tree feeds it "
+    "ValueError for a line below the last transition (self._transitions[-1], "
+    "also when read through a once-bound local alias of the list); "
+    "Director._parse_src_tree feeds it "
     "comment.line in the iteration order of visitor.structured_comment_groups "
     "and of each group; so the parser's ordered dict and every merged group "
     "must stay ascending: the direction (ascending/descending relative to the "
@@ -158,7 +161,7 @@ def _pycnite_names(version):
 
 
 def _handlers(ctx):
-  prefix = O.dispatch_prefix(ctx)
+  prefix = U.dispatch_prefix(ctx)
   methods, external = O.vm_methods(ctx)
   if external:
     raise AnalysisError(
@@ -394,7 +397,10 @@ def _norm_body(h):
 def r15_2(ctx):
   """Compile errors become a python-compiler-error; nothing is shadowed."""
   mod = get_module(ctx, IO)
-  fn = mod.func("check_or_generate_pyi")
+  # module-level helpers the function hands parts of the except-chain / the
+  # fallback result to (`return _make_failed_result(.., compiler_error, ..)`)
+  # are read inline
+  fn, _, _ = U.inline_local_calls(mod, mod.func("check_or_generate_pyi"), depth=2)
   tries = [n for n in ast.walk(fn) if isinstance(n, ast.Try)
            and any((dotted(c.func) or "").split(".")[-1] in ("check_py", "generate_pyi")
                    for st in n.body for c in calls_in(st))]
@@ -1085,14 +1091,27 @@ def r15_8(ctx):
   tab = O.opcode_table(ctx)
   prefix, methods = _handlers(ctx)
   mod = get_module(ctx, VM)
-  run = mod.func("VirtualMachine.run_instruction")
+  # (methods of the VirtualMachine that run_instruction hands the look-up to
+  # are read inline: `handler = self._get_opcode_handler(op)`)
+  run, _, _ = U.inline_local_calls(mod, mod.func("VirtualMachine.run_instruction"), depth=2)
   # how the handler is called
   callee = None
   for st in ast.walk(run):
     if isinstance(st, ast.Assign) and isinstance(st.value, ast.Call) and \
         dotted(st.value.func) == "getattr" and len(st.targets) == 1:
       callee = dotted(st.targets[0])
-  calls = [c for c in calls_in(run) if callee and dotted(c.func) == callee]
+  # plain copies of the looked-up handler (`handler = found`)
+  names = {callee} if callee else set()
+  changed = True
+  while changed:
+    changed = False
+    for st in ast.walk(run):
+      if isinstance(st, ast.Assign) and len(st.targets) == 1 and isinstance(st.value, ast.Name) \
+          and st.value.id in names and dotted(st.targets[0]) not in names \
+          and isinstance(st.targets[0], ast.Name):
+        names.add(st.targets[0].id)
+        changed = True
+  calls = [c for c in calls_in(run) if dotted(c.func) in names]
   if len(calls) != 1 or calls[0].keywords or any(
       isinstance(a, ast.Starred) for a in calls[0].args):
     raise AnalysisError(f"{VM}: the `bytecode_fn(state, op)` call in "
